@@ -30,6 +30,7 @@ class Server:
         self.loopprev = 255
         self.rwin = self.rwout = None
         self.reqma = False
+        self.dyn = None           # dynamicLookupCommand: a template for dynamically discovered servers (not in the model)
 
 class Realm:
     def __init__(self, name):
@@ -96,8 +97,11 @@ class Cfg:
         for s in self.servers:
             l.append('server %s {' % s.name)
             l.append('  type %s' % TYPE_NAME[s.type])
-            l.append('  host 10.1.0.%d' % (s.idx + 1))
+            if not s.dyn:
+                l.append('  host 10.1.0.%d' % (s.idx + 1))
             l.append('  secret %s' % self.secret_conf(s.secret))
+            if s.dyn:
+                l.append('  dynamicLookupCommand %s' % s.dyn)
             l.append('  StatusServer %s' % STATSRV[s.statsrv])
             if s.retryint is not None:
                 l.append('  RetryInterval %d' % s.retryint)
@@ -144,6 +148,8 @@ class Cfg:
                 c.rwin.name if c.rwin else '-', c.rwout.name if c.rwout else '-',
                 hx(c.rwuser[1].encode('latin-1')) if c.rwuser else '-', c.reqma, c.reqmap))
         for s in self.servers:
+            if s.dyn:
+                continue
             ri, rc = self.retry_defaults(s)
             l.append('cfg server %d name=%s type=%d secret=%s statsrv=%d retryint=%d retrycount=%d addttl=%d loopprev=%d rwin=%s rwout=%s reqma=%d' % (
                 s.idx, hx(s.name.encode()), s.type, hx(s.secret), s.statsrv, ri, rc, s.addttl, s.loopprev,
@@ -151,7 +157,7 @@ class Cfg:
         for k, r in enumerate(self.realms):
             l.append('cfg realm %d msg=%s accresp=%d srv=%s acc=%s' % (
                 k, hx(r.msg) if r.msg is not None else '-', r.accresp,
-                ','.join(map(str, r.srv)) or '-', ','.join(map(str, r.acc)) or '-'))
+                ','.join(str(i) for i in r.srv if not self.servers[i].dyn) or '-', ','.join(str(i) for i in r.acc if not self.servers[i].dyn) or '-'))
         return l
 
 REALM_NAMES = ['example.com', 'b.example.com', 'other.org', 'x-y.example.net']
